@@ -81,10 +81,11 @@ EXTRA_VALUES = {
         'v=spf1 -all', 'v=spf1 x= -all', 'v=spf1 a mx ~all', 'v=spf1 +mx ?a ~include:x.example +ip4:192.0.2.1 -all', 'v=spf1 +all', 'v=spf1 ip4:192.0.2.0/24 ip6:2001:db8::/32 include:example.net ?all',
         'v=spf1 redirect=example.org', 'v=spf1 a:a.example mx:b.example/24 exists:%{i}.c.example -all'),
     'cryptoparser.dnsrec.txt:DnsRecordTxtValueDmarc': (
-        'v=DMARC1; p=none', 'v=DMARC1; p=reject; rua=mailto:a@example.com; pct=100', 'v=DMARC1; p=quarantine; sp=none; adkim=s; aspf=r'),
+        'v=DMARC1; p=none', 'v=DMARC1; p=reject; rua=mailto:a@example.com; pct=100', 'v=DMARC1; p=none; ruf=mailto:f@example.com?subject=fail', 'v=DMARC1; p=quarantine; sp=none; adkim=s; aspf=r'),
     'cryptoparser.dnsrec.txt:DnsRecordTxtValueMtaSts': ('v=STSv1; id=1', 'v=STSv1; id=20160831085700Z'),
     'cryptoparser.dnsrec.txt:DnsRecordTxtValueTlsRpt': (
-        'v=TLSRPTv1; rua=mailto:a@example.com', 'v=TLSRPTv1; rua=https://example.com/report'),
+        'v=TLSRPTv1; rua=mailto:a@example.com', 'v=TLSRPTv1; rua=https://example.com/report',
+        'v=TLSRPTv1; rua=mailto:a@example.com?subject=TLS%20report', 'v=TLSRPTv1; rua=https://example.com/report?site=a#frag'),
 }
 
 
